@@ -24,6 +24,9 @@ PV = 'skalo::process_variants::'
 
 
 def run(facts, chk, tier, only=None):
+    from . import subs
+    # the run must not abort / wrap on an unsigned subtraction of path or sequence lengths (necessary for any output at all)
+    chk.guard('C17.sub', 'C17.sub:run', lambda: subs.check(facts, chk, 'C17.sub'))
     from . import c18
     chk.guard('C17.leaf', 'C17.leaf:run', lambda: c18.check_graph_leaves(facts, chk, 'C17.leaf'))
     av = facts.fn(PV + 'analyse_variant_groups')
@@ -122,7 +125,7 @@ def run(facts, chk, tier, only=None):
         bad = []
         n = 0
         alpha = 'ATGC-NX'
-        for L in (1, 2, 3):
+        for L in ((1, 2, 3, 4) if tier == 'thorough' else (1, 2, 3)):
             for col in itertools.product(alpha, repeat=L):
                 for nb in (L, L + 1):
                     cell = Cell(Agg('array', 0, [BV(32, ord(c)) for c in col]), 'col')
@@ -153,7 +156,7 @@ def run(facts, chk, tier, only=None):
                           detail='(column, n, got, expected) = %s' % (bad[0],))
         else:
             chk.ok('C17.missing', 'C17.missing:check_missing_data', PV + 'check_missing_data',
-                   'valid iff >= 2 distinct A/C/G/T; ratio = #non-ACGT / n: %d columns (length <= 3 over A,T,G,C,-,N,X)' % n, evals=n)
+                   'valid iff >= 2 distinct A/C/G/T; ratio = #non-ACGT / n: %d columns (length <= %d over A,T,G,C,-,N,X)' % (n, 4 if tier == 'thorough' else 3), evals=n)
         if cbad:
             chk.violation('C17.missing', 'C17.missing:complement_snp', where=PV + 'complement_snp', detail='complement table %s' % comp)
         else:
